@@ -50,6 +50,11 @@ R(svc, tag, mode, idx, n, off, typ, vals, bytes) ==
   [svc |-> svc, tag |-> tag, mode |-> mode, idx |-> idx, n |-> n, off |-> off, typ |-> typ, vals |-> vals,
    bytes |-> bytes, ms |-> <<>>]
 
+\* Get Attribute List / Get Attributes All on the objects that hold nothing but tags (not the Identity object of `Foreign')
+ObjReqs(t) == LET a == MCfg.tags[t].cia[3] IN
+  IF MCfg.tags[t].cia[1] = 1 THEN {} ELSE
+  { R("gal", t, "cia", 0 - 1, 0, 0, T1, <<>>, <<>>) @@ [attrs |-> as] : as \in { <<a>>, <<a, 99>>, <<99, a, a>>, <<2, 1>>, <<>> } }
+  \cup { R("gaa", t, "cia", 0 - 1, 0, 0, T1, <<>>, <<>>) }
 TagReqs(t) ==
   LET T == MCfg.tags[t]  U == T.type  L == T.len  sz == Size(U)  szz == IF sz = 0 THEN 1 ELSE sz
       modes == IF Rich THEN {"sym", "cia"} ELSE (IF t % 2 = 1 THEN {"sym"} ELSE {"cia"})
@@ -73,9 +78,11 @@ TagReqs(t) ==
   (IF sz = 0 THEN {} ELSE
    { R("gas", t, "cia", 0 - 1, 0, 0, U, <<>>, <<>>) } \cup
    { R("sas", t, "cia", 0 - 1, 0, 0, U, <<>>, EncElems(U, ValSeq(U, k, s))) : k \in {L, L + 1} \cup (IF L > 1 THEN {L - 1} ELSE {}), s \in 1 .. NV })
+  \cup ObjReqs(t)
 
 UnknownReqs == { R("read", 0, "sym", 0 - 1, 1, 0, T1, <<>>, <<>>),
-                 R("write", 0, "sym", 0, 1, 0, T1, ValSeq(T1, 1, 1), <<>>) }
+                 R("write", 0, "sym", 0, 1, 0, T1, ValSeq(T1, 1, 1), <<>>),
+                 R("gal", 0, "noinst", 0 - 1, 0, 0, T1, <<>>, <<>>) @@ [attrs |-> <<1>>], R("gaa", 0, "noclass", 0 - 1, 0, 0, T1, <<>>, <<>>) }
                \cup UNION { { R("read", 0, md, ix, 1, 0, T1, <<>>, <<>>), R("write", 0, md, ix, 1, 0, T1, ValSeq(T1, 1, 1), <<>>),
                              R("readf", 0, md, ix, 1, 0, T1, <<>>, <<>>) } : md \in {"noinst", "noclass"}, ix \in {0 - 1, 0} }
 
@@ -110,6 +117,7 @@ CoreOf(t) ==
   \cup (IF sz = 0 THEN {} ELSE
         { R("gas", t, "cia", 0 - 1, 0, 0, U, <<>>, <<>>),
           R("sas", t, "cia", 0 - 1, 0, 0, U, <<>>, EncElems(U, ValSeq(U, L, 2))) })
+  \cup (IF t = 1 THEN { R("gal", t, "cia", 0 - 1, 0, 0, T1, <<>>, <<>>) @@ [attrs |-> <<MCfg.tags[t].cia[3], 99>>] } ELSE {})
 \* ... and a member served by another kind of object (Get Attribute Single on the Identity object's attribute of tag 4)
 CoreReqs == CoreOf(1) \cup CoreOf(3) \cup { R("read", 0, "sym", 0 - 1, 1, 0, T1, <<>>, <<>>) }
             \* members addressed numerically to an instance that does not exist (attribute 1 exists in @2/1: must not be served from there)
